@@ -113,12 +113,13 @@ LawSpec(c) ==
 
 \* Which channel the documentation designates for the target: an explicit argument or
 \* --target-file wins; "-" designates standard input; with neither, standard input.
-\* Two explicit designations at once, or an explicitly empty argument: no promise.
+\* An empty argument designates nothing, for the target as for the spec: it is as if absent.
+\* Two explicit designations at once: no promise.
 \* (The names of the files, in particular their extensions, designate nothing: only
 \* --spec-format / --target-format decide how a text is read.)
 LawChannel(c) ==
-  LET n == (IF c.t.arg # "none" THEN 1 ELSE 0) + (IF c.t.file # "none" THEN 1 ELSE 0) IN
-  IF n > 1 \/ c.t.arg = "empty" THEN "unspecified"
+  LET n == (IF c.t.arg \in {"text", "dash"} THEN 1 ELSE 0) + (IF c.t.file # "none" THEN 1 ELSE 0) IN
+  IF n > 1 THEN "unspecified"
   ELSE IF c.t.arg = "text" THEN "arg"
   ELSE IF c.t.file \in {"ok", "okempty", "unreadable"} THEN "file"
   ELSE "stdin"
